@@ -327,7 +327,9 @@ class Exec:
 
     # ------------------------------------------------------------------ raising helpers
     def raise_(self, st, cls, *args):
-        return st, Exc(ExcVal(cls, args))
+        e = ExcVal(cls, args)
+        e.where = st.ghost.get("at")
+        return st, Exc(e)
 
     # ------------------------------------------------------------------ truthiness / narrowing
     def truthy(self, st, v):
@@ -1037,6 +1039,7 @@ class Exec:
         m = getattr(self, "st_" + type(node).__name__, None)
         if m is None:
             raise Unsupported(f"statement {type(node).__name__} at line {node.lineno}")
+        st.ghost["at"] = (st.fr.qualname, node.lineno)  # where an exception raised next comes from (reporting only)
         yield from m(node, st)
 
     def st_Pass(self, node, st):
